@@ -341,7 +341,7 @@ theorem merge_translate {K : Type} [AddZeroClass K] (fs : List (Fld K)) (hne : f
   rw [merge_emb fs hne hpos p hp (r - d0) (c - d1)]
   rw [merge_emb (fs.map fun f => f.translate d0 d1) (by simpa using hne) (by
     intro f hf; obtain ⟨f0, hf0, rfl⟩ := List.mem_map.mp hf; exact hpos f0 hf0) p' hp' r c]
-  rw [sumList_map]
+  rw [sumList_map_comp]
   exact sumList_congr fs _ _ (fun f _ => Fld.translate_emb f d0 d1 r c)
 
 /-- **a merge does not depend on the order of the fields**: any reordering merges to the same embedding -/
@@ -630,7 +630,7 @@ theorem reduce_translate_total (fs : List (Fld K)) (hpos : ∀ f ∈ fs, 0 < f.a
   rw [reduce_total fs hpos out hout (r - d0) (c - d1)]
   rw [reduce_total (fs.map fun f => f.translate d0 d1) (by
     intro f hf; obtain ⟨f0, hf0, rfl⟩ := List.mem_map.mp hf; exact hpos f0 hf0) out' hout' r c]
-  rw [sumList_map]
+  rw [sumList_map_comp]
   exact sumList_congr fs _ _ (fun f _ => Fld.translate_emb f d0 d1 r c)
 
 /-- **the reduced total does not depend on the order of the fields** -/
